@@ -766,3 +766,127 @@ Proof.
   - destruct (inv_get st x _ IV G) as (_ & _ & WF). cbn [vwf] in WF.
     destruct (ckind c); try (exists false, st; auto; fail). discriminate.
 Qed.
+
+(* ---- OAddAll ---- *)
+Lemma can_addall_cases k : can_addall k = true -> is_array k = false ->
+  k = KList \/ (unique k = true /\ k <> KList).
+Proof. destruct k; cbn; intros; try discriminate; auto; right; split; auto; discriminate. Qed.
+
+Lemma step_addall st x p y : Inv st -> swf (abs st) -> step_good st (OAddAll x p y).
+Proof.
+  intros IV SW. unfold step_good. cbn [step spec_step]. rewrite !sget_abs.
+  destruct (getv (svars st) x) as [cx|] eqn:Gx; cbn [option_map]; [|exists false, st; auto].
+  destruct (getv (svars st) y) as [cy|] eqn:Gy; cbn [option_map]; [|destruct (abs_cont (sw st) cx); exists false, st; auto].
+  assert (KEx : fst (abs_cont (sw st) cx) = kind_of cx) by (destruct cx; reflexivity).
+  assert (KEy : fst (abs_cont (sw st) cy) = kind_of cy) by (destruct cy; reflexivity).
+  destruct (abs_cont (sw st) cx) as [k l] eqn:ACx. destruct (abs_cont (sw st) cy) as [k' l'] eqn:ACy.
+  cbn [fst] in KEx, KEy. subst k k'.
+  destruct (kind_eqb (kind_of cx) (kind_of cy) && can_addall (kind_of cx)) eqn:C; [|exists false, st; auto].
+  apply andb_true_iff in C. destruct C as [KE CA']. apply kind_eqb_eq in KE.
+  destruct (inv_get st x cx IV Gx) as (Hx & Hbx & WFx). destruct (inv_get st y cy IV Gy) as (Hy & Hby & WFy).
+  pose proof (inv_wf _ IV) as W.
+  destruct cx as [a|n], cy as [b|m]; cbn [cids cbks vwf abs_cont kind_of is_array] in *.
+  - assert (El : l = aabs (sw st) a) by (inversion ACx; reflexivity).
+    assert (El' : l' = aabs (sw st) b) by (inversion ACy; reflexivity). subst l l'.
+    assert (R : exists a' w', arr_append_arr a (if Nat.eqb x y then None else Some b) (sw st) = Ok (a', w') /\
+                  trans (sw st) w' (aelems a) (aelems a') (ablks a) (ablks a') /\
+                  avals w' a' = avals (sw st) a ++ avals (sw st) b /\ awf a').
+    { destruct (Nat.eqb_spec x y) as [->|NE].
+      - rewrite Gx in Gy. inversion Gy. subst b.
+        destruct (arr_append_arr_ok a None (sw st) W) as (a' & w' & E & T & V & WF'); auto.
+        { cbn [other_elems]. rewrite app_nil_r. exact Hx. }
+        exists a', w'. auto.
+      - pose proof (inv_holds2 st x y _ _ IV NE (getv_nth _ _ _ Gx) (getv_nth _ _ _ Gy)) as H2. cbn [vids cids] in H2.
+        destruct (arr_append_arr_ok a (Some b) (sw st) W H2 Hbx WFx) as (a' & w' & E & T & V & WF').
+        exists a', w'. auto. }
+    destruct R as (a' & w' & E & T & V & WF').
+    destruct (put_ok st x (Some (CA a)) (CA a') w' _ IV (getv_nth _ _ _ Gx) (lift_ok CA _ _ _ _ E) T WF') as (st' & E' & IV' & A').
+    exists true, st'. split; [exact E'|]. split; [exact IV'|]. rewrite A'. cbn [abs_cont].
+    fold (aabs w' a'). rewrite !aabs_avals, V, map_app. reflexivity.
+  - exfalso. rewrite <- KE in WFy. discriminate.
+  - exfalso. rewrite KE in WFx. discriminate.
+  - assert (El : l = nabs (sw st) n) by (inversion ACx; reflexivity).
+    assert (El' : l' = nabs (sw st) m) by (inversion ACy; reflexivity). subst l l'.
+    rewrite WFx.
+    assert (R : exists c' w', nc_add_all n (addall_p (ckind n) p) (if Nat.eqb x y then None else Some m) (sw st) = Ok (c', w') /\
+                  trans (sw st) w' (nids n) (nids c') (nblks n) (nblks c') /\ ckind c' = ckind n /\
+                  nabs w' c' = spec_ins_all (ckind n) (nabs (sw st) n) (addall_p (ckind n) p) (nabs (sw st) m)).
+    { destruct (Nat.eqb_spec x y) as [->|NE].
+      - rewrite Gx in Gy. inversion Gy. subst m.
+        destruct (can_addall_cases _ CA' WFx) as [KL|[UQ NL]].
+        + destruct (nc_add_all_self_list n (addall_p (ckind n) p) (sw st) W Hx Hbx KL) as (c' & w' & E & T & K & A).
+          exists c', w'. split; [exact E|]. split; [exact T|]. split; [exact K|]. rewrite A.
+          destruct (nabs (sw st) n) eqn:EN; [rewrite KL; reflexivity|]. rewrite <- EN.
+          rewrite (reinsert_id KList (nabs (sw st) n)); [rewrite KL; reflexivity | rewrite <- KL; apply nabs_shaped |].
+          split; intros Q; discriminate.
+        + pose proof (swf_get st y (CN n) SW Gx) as KO. cbn [abs_cont fst snd] in KO.
+          destruct (nc_add_all_self_unique n (addall_p (ckind n) p) (sw st) W Hx UQ NL (proj1 KO UQ)) as (w' & E & T & A).
+          exists n, w'. split; [exact E|]. split; [exact T|]. split; [reflexivity|]. rewrite A.
+          symmetry. apply self_insert_unique; auto; [apply nabs_shaped | apply (proj1 KO UQ)].
+      - pose proof (inv_holds2 st x y _ _ IV NE (getv_nth _ _ _ Gx) (getv_nth _ _ _ Gy)) as H2. cbn [vids cids] in H2.
+        apply (nc_add_all_other n (addall_p (ckind n) p) m (sw st) W H2 Hbx (eq_sym KE)). }
+    destruct R as (c' & w' & E & T & K & A).
+    destruct (put_ok st x (Some (CN n)) (CN c') w' _ IV (getv_nth _ _ _ Gx) (lift_ok CN _ _ _ _ E) T) as (st' & E' & IV' & A').
+    { cbn [vwf]. rewrite K. exact WFx. }
+    exists true, st'. split; [exact E'|]. split; [exact IV'|]. rewrite A'. cbn [abs_cont].
+    fold (nabs w' c'). rewrite K, A. reflexivity.
+Qed.
+
+(* ---- ORemAll ---- *)
+Lemma step_remall st x y : Inv st -> step_good st (ORemAll x y).
+Proof.
+  intros IV. unfold step_good. cbn [step spec_step]. rewrite !sget_abs.
+  destruct (getv (svars st) x) as [cx|] eqn:Gx; cbn [option_map]; [|exists false, st; auto].
+  destruct (getv (svars st) y) as [cy|] eqn:Gy; cbn [option_map];
+    [|destruct (abs_cont (sw st) cx); destruct cx; exists false, st; auto].
+  destruct (inv_get st x cx IV Gx) as (Hx & Hbx & WFx). destruct (inv_get st y cy IV Gy) as (Hy & Hby & WFy).
+  pose proof (inv_wf _ IV) as W.
+  destruct cx as [a|n], cy as [b|m]; cbn [cids cbks vwf abs_cont kind_of is_array] in *;
+    try (cbn [kind_eqb can_remall andb]; exists false, st; auto; fail).
+  - destruct (kind_eqb KArray (ckind m) && can_remall KArray) eqn:C; [|exists false, st; auto].
+    apply andb_true_iff in C. destruct C as [_ C]. discriminate.
+  - destruct (kind_eqb (ckind n) KArray && can_remall (ckind n)) eqn:C; [|exists false, st; auto].
+    apply andb_true_iff in C. destruct C as [C _]. apply kind_eqb_eq in C. rewrite C in WFx. discriminate.
+  - destruct (kind_eqb (ckind n) (ckind m) && can_remall (ckind n)) eqn:C; [|exists false, st; auto].
+    apply andb_true_iff in C. destruct C as [KE CR]. apply kind_eqb_eq in KE.
+    assert (HK : has_key (ckind n) = true) by (destruct (ckind n); cbn in CR; try discriminate; reflexivity).
+    assert (R : exists c' w', nc_remove_keys n (citems m) (sw st) = Ok (c', w') /\
+                  trans (sw st) w' (nids n) (nids c') (nblks n) (nblks c') /\ ckind c' = ckind n /\
+                  nabs w' c' = spec_rem_all (ckind n) (nabs (sw st) n) (nabs (sw st) m)).
+    { destruct (Nat.eq_dec x y) as [->|NE].
+      - rewrite Gx in Gy. inversion Gy. subst m.
+        destruct (nc_remove_keys_self (citems n) n (sw st) eq_refl W Hx HK) as (c' & w' & E & T & K & I).
+        exists c', w'. split; [exact E|]. split; [exact T|]. split; [exact K|].
+        rewrite self_remove by exact HK. unfold nabs. rewrite I. reflexivity.
+      - pose proof (inv_holds2 st x y _ _ IV NE (getv_nth _ _ _ Gx) (getv_nth _ _ _ Gy)) as H2. cbn [vids cids] in H2.
+        destruct (nc_remove_keys_ok (citems m) n (sw st) W) as (c' & w' & E & T & K & A); auto.
+        { rewrite KE. eapply holds_sub; [exact H2|]. unfold nids. msolve. }
+        exists c', w'. split; [exact E|]. split; [exact T|]. split; [exact K|].
+        rewrite A. unfold nabs. rewrite KE. reflexivity. }
+    destruct R as (c' & w' & E & T & K & A).
+    destruct (put_ok st x (Some (CN n)) (CN c') w' _ IV (getv_nth _ _ _ Gx) (lift_ok CN _ _ _ _ E) T) as (st' & E' & IV' & A').
+    { cbn [vwf]. rewrite K. exact WFx. }
+    exists true, st'. split; [exact E'|]. split; [exact IV'|]. rewrite A'. cbn [abs_cont].
+    fold (nabs w' c') (nabs (sw st) n) (nabs (sw st) m). rewrite K, A. reflexivity.
+Qed.
+
+(* ---------------------------------------------------------------------------------------- *)
+(* all operations                                                                             *)
+(* ---------------------------------------------------------------------------------------- *)
+Theorem step_ok st o : Inv st -> swf (abs st) -> step_good st o.
+Proof.
+  intros IV SW. destruct o.
+  - apply step_new; auto.
+  - apply step_del; auto.
+  - apply step_copy; auto.
+  - apply step_assign; auto.
+  - apply step_swap; auto.
+  - apply step_clear; auto.
+  - apply step_ins; auto.
+  - apply step_remat; auto.
+  - apply step_remkey; auto.
+  - apply step_addall; auto.
+  - apply step_remall; auto.
+  - apply step_reserve; auto.
+  - apply step_resize; auto.
+Qed.
